@@ -36,7 +36,8 @@ SPEC = dict(
             "value-order-compared", "left-bound-checked", "overlapping-trims", "operations-overlapping-a-trim",
             "duplicate-connected", "duplicate-disconnected", "sync-delivery", "bump-applied", "decay-tick-applied", "decay-removed-with-nonzero-after",
             "early-tag-entry-dropped", "order-dependent-overlap", "resync-after-order-dependent-overlap", "sampled-peer-check", "sampled-protect-check", "decay-applied-after-clock-jump",
-            "eligible-only-by-wall-time-after-clock-jump", "closed-peer-eligible-only-by-wall-time"],
+            "eligible-only-by-wall-time-after-clock-jump", "closed-peer-eligible-only-by-wall-time",
+            "clock-jump-during-operation"],
     real=["p2p/net/connmgr (instrumented: sync->simsync, go->simrt.Go, select, map ranges): BasicConnMgr, decayer, background trim loop",
           "benbjohnson/clock.New() on the synctest bubble clock, wrapped so that Now()/Since()/Until() add the clock-jump offset"],
     stubs=["network.Conn (records CloseWithError with stamps; Disconnected delivered later by another task, or synchronously)"],
